@@ -12,6 +12,18 @@ pub struct Opts {
     pub replay_dir: PathBuf,
     pub known_path: PathBuf,
     pub dump_digest: Option<PathBuf>,
+    /// second pass by another build of the same harness (debug assertions and overflow checks on): a
+    /// quarter of the seeded runs, and the result is added to the evidence file the first pass wrote
+    pub amend_evidence: bool,
+}
+
+/// Which configuration of the code under test this binary was built with.
+pub fn build_name() -> &'static str {
+    if cfg!(debug_assertions) {
+        "checked"
+    } else {
+        "release"
+    }
 }
 
 impl Opts {
